@@ -139,10 +139,10 @@ def gen_async_seq(ctx):
 
 
 # ----------------------------------------------------------------------------- configurations
-def cfg_line(nh, close, senders, sig=(), free="safe", eintr=0, cap=None, fork=0):
-    return ("cfg nh=%d close=%s senders=%s sig=%s free=%s eintr=%d cap=%s fork=%d" % (
+def cfg_line(nh, close, senders, sig=(), free="safe", eintr=0, cap=None, fork=0, stop=0):
+    return ("cfg nh=%d close=%s senders=%s sig=%s free=%s eintr=%d cap=%s fork=%d stop=%d" % (
         nh, ",".join(map(str, close)) or "-", ";".join(",".join(map(str, p)) for p in senders) or "-",
-        ",".join(f"{t}:{v}" for t, v in sig) or "-", free, eintr, "-" if cap is None else cap, fork))
+        ",".join(f"{t}:{v}" for t, v in sig) or "-", free, eintr, "-" if cap is None else cap, fork, stop))
 
 
 DFS_QUICK = [
@@ -161,6 +161,8 @@ DFS_QUICK = [
     cfg_line(1, [0], [[0, 0]], eintr=1, cap=1),
     cfg_line(1, [], [[0, 0]], fork=1),                # fork + uv_loop_fork at any quiescent point of the loop: sends before / across / after
     cfg_line(2, [1], [[0], [1]], fork=1),             # ... with a second sender thread (lost in the child when mid-send) and a close
+    cfg_line(2, [], [[0], [1]], stop=1),              # uv_stop() from an async callback with both handles signalled; the loop is run again
+    cfg_line(2, [1], [[0, 1, 0]], stop=2),
 ]
 DFS_THOROUGH = [
     cfg_line(1, [0], [[0, 0], [0]]),
@@ -179,6 +181,8 @@ DFS_THOROUGH = [
     cfg_line(2, [], [[0, 1], [1]], sig=[(1, "l")], eintr=2, cap=2),
     cfg_line(2, [0], [[0, 1, 0], [1, 0]], fork=2),
     cfg_line(1, [0], [[0, 0], [0]], fork=1, eintr=1, cap=1),
+    cfg_line(3, [1], [[0, 1], [2, 1]], stop=2),
+    cfg_line(2, [0], [[0, 1], [1, 0]], stop=1, fork=1, eintr=1),
 ]
 PROBE_FREE_IN_CB = cfg_line(1, [0], [[0]], free="cb")
 
@@ -194,7 +198,7 @@ def gen_rand_cfg(rng):
         v = rng.choice(["l"] + [x for x in range(ns) if x != t])
         sig = [(t, v)]
     return cfg_line(nh, close, senders, sig, eintr=rng.choice([0, 0, 1, 2, 3]), cap=rng.choice([None, None, 1, 2]),
-                    fork=rng.choice([0, 0, 1, 2]))
+                    fork=rng.choice([0, 0, 1, 2]), stop=rng.choice([0, 0, 1, 2]))
 
 
 # ----------------------------------------------------------------------------- running and comparing
@@ -218,8 +222,8 @@ def in_window_switches(path_states):
     n = 0
     for i in range(1, len(path_states)):
         (t0, st0), (t1, _) = path_states[i - 1], path_states[i]
-        th0 = "l" if t0[0] in "lcfik" else "s" + t0[1:]
-        th1 = "l" if t1[0] in "lcfik" else "s" + t1[1:]
+        th0 = "l" if t0[0] in "lcfikx" else "s" + t0[1:]
+        th1 = "l" if t1[0] in "lcfikx" else "s" + t1[1:]
         if th0 == th1:
             continue
         if th0 == "l":
@@ -335,7 +339,7 @@ def report(ctx, exe, viols, label):
         seen.add(sig)
         rep = shrink(ctx, exe, sig, rep)
         ctx.violation(sig, f"C09 ({label}) {sig}: {what}; configuration `{rep['cfg']}`, schedule `{rep['sched']}` "
-                           f"(s<t> = next step of sender t, l = loop thread step, c<h> = uv_close(h), f = run close callbacks, e<t> = sender t's eventfd write answers EINTR, i = the loop's eventfd read answers EINTR, k = fork + uv_loop_fork, continue in the child)", rep)
+                           f"(s<t> = next step of sender t, l = loop thread step, c<h> = uv_close(h), f = run close callbacks, e<t> = sender t's eventfd write answers EINTR, i = the loop's eventfd read answers EINTR, k = fork + uv_loop_fork, continue in the child, x = uv_stop() inside the current callback)", rep)
 
 
 def run(ctx):
@@ -351,15 +355,30 @@ def run(ctx):
     # Generated/AsyncSeq.lean is shared by every C09 run (possibly of different working trees, concurrently):
     # regenerate + build + audit under one lock
     with Locked(CACHE / "lock-c09-asyncseq"):
-        seqs = gen_async_seq(ctx)
+        for attempt in range(4):
+            nb, no = len(ctx.broken), len(ctx.obligations)
+            seqs = gen_async_seq(ctx)
+            want = GEN.read_text() if GEN.exists() else None
+            proofs_ok = ctx.require_lean(["UvModel.Props.C09"])
+            if proofs_ok or (GEN.exists() and GEN.read_text() == want):
+                break
+            # the generated file was replaced behind our back while lake was running (tools/seedtest.py of any property
+            # ends with `git checkout -- lean/UvModel/Generated`): the failure says nothing about this tree — redo
+            ctx.log("Generated/AsyncSeq.lean was modified externally during the build; regenerating")
+            del ctx.broken[nb:], ctx.obligations[no:]
         if seqs:
             ctx.notes["extracted_sequences"] = {k: " ".join(v) for k, v in seqs.items()}
-        proofs_ok = ctx.require_lean(["UvModel.Props.C09"])
     exe = ctx.harness("c09_sched", ["harness/c09_sched.c"], link_lib=True)
     if exe is None:
         return
     if ctx.replay:
         rep = json.loads(Path(ctx.replay).read_text())["replay"]
+        if "realstop" in rep:
+            rc, out, err = ctx.run(exe, text=f"realstop {rep['realstop']}\n", timeout=60)
+            print(out + err[-500:])
+            if "run3 cbA=1 cbB=1" not in out or "resend cbA=2 cbB=2" not in out:
+                ctx.violation("send-lost-after-uv-stop", "replay: " + out[-300:], rep)
+            return
         if "realfork" in rep:
             rc, out, err = ctx.run(exe, text=f"realfork {rep['realfork']}\n", timeout=60)
             print(out + err[-500:])
@@ -389,6 +408,7 @@ def run(ctx):
         (cfg_line(2, [0], [[0, 1]]), "s0 s0 s0 s0 s0 s0 l l l c0 l l l s0 s0 s0 s0 s0 s0 l l l l f"),  # close inside a callback
         (cfg_line(1, [], [[0, 0]], eintr=3), "s0 s0 s0 s0 e0 e0 s0 s0 l i l l l s0 s0"),     # EINTR twice on the wake-up write, once on the drain
         (cfg_line(2, [], [[0], [1]], cap=1), "s0 s0 s0 s0 s0 s1 s1 s1 s1 s1 s1 s0 l l l l l l"),  # second write answers EAGAIN
+        (cfg_line(2, [], [[0], [1, 1]], stop=1), "s0 s0 s0 s0 s0 s0 s1 s1 s1 s1 s1 s1 l l l x l l l l s1 s1 s1 s1 s1 s1 l l l l l"),  # stop in the first of two signalled callbacks, run again, send again
         (cfg_line(1, [], [[0, 0]], fork=1), "s0 s0 s0 s0 s0 s0 k s0 s0 s0 s0 s0 s0 l l l l"),   # send undelivered at fork time, send again in the child
         (cfg_line(2, [], [[0], [1, 1]], fork=1), "s0 s0 s0 s0 s1 s1 s1 s1 s1 s1 k s1 s1 s1 s1 s1 s1 l l l l l l"),  # a sender mid-send does not exist in the child
     ]
@@ -415,6 +435,24 @@ def run(ctx):
         if bad:
             ctx.violation(bad[0], f"C09 (real fork, variant {variant}: {['send undelivered at fork time', 'idle at fork time', 'send delivered before fork'][variant]}) {bad[1]}",
                           {"realfork": variant})
+        else:
+            ctx.validated()
+    # real loop: uv_stop() from the callback of the first / second of two handles signalled in the same wake-up, then run again
+    for stopper in (0, 1):
+        rc, out, err = ctx.run(exe, text=f"realstop {stopper}\n", timeout=60)
+        ctx.count()
+        m3 = re.search(r"run3 cbA=(\d+) cbB=(\d+)", out)
+        m4 = re.search(r"resend cbA=(\d+) cbB=(\d+)", out)
+        bad = None
+        if rc != 0 or not m3 or not m4:
+            bad = ("stop-harness-crash", f"harness rc={rc}: {_short(err)} {out[-300:]}")
+        elif m3.group(1) != "1" or m3.group(2) != "1":
+            bad = ("send-lost-after-uv-stop", f"two handles signalled before uv_run; callback of handle {'AB'[stopper]} called uv_stop(); after running the loop "
+                   f"again (twice, NOWAIT) callbacks A={m3.group(1)} B={m3.group(2)} (each send must get its callback)")
+        elif m4.group(1) != "2" or m4.group(2) != "2":
+            bad = ("send-lost-after-uv-stop", f"sends issued after the stopped run were not delivered: A={m4.group(1)} B={m4.group(2)} (expected 2 each)")
+        if bad:
+            ctx.violation(bad[0], f"C09 (real loop, uv_stop from callback {stopper}) {bad[1]}", {"realstop": stopper})
         else:
             ctx.validated()
     ctx.notes["realfork"] = "3 variants, child and parent each receive sends from a second thread while blocked in uv_run"
